@@ -50,6 +50,16 @@ MUTANTS = {
          "                && rc < RC_FAILED && t[i].rc == 0)\n                rc = RC_FAILED;"),
         ("marker-only-with-S", "src/pdsh/dsh.c", "    if (opt->kill_on_fail || opt->ret_remote_rc)\n        opt->getstat", "    if (opt->ret_remote_rc)\n        opt->getstat"),
         ("S-with-k-returns-0", "src/pdsh/dsh.c", "    if (opt->ret_remote_rc) {\n        for (i = 0; t[i].host", "    if (opt->ret_remote_rc && !opt->kill_on_fail) {\n        for (i = 0; t[i].host"),
+        # round 2b: refusal paths
+        ("new-exit-path", "src/pdsh/opt.c", "        case 'N':\n            opt->labels = false;",
+         "        case 'N':\n            if (opt->fanout == 4242) errx (\"%p: no\\n\");\n            opt->labels = false;"),
+        ("errx-exits-2", "src/common/err.c", "    va_end(ap);\n    exit(1);\n}\n\nvoid out(", "    va_end(ap);\n    exit(2);\n}\n\nvoid out("),
+        ("usage-exits-0", "src/pdsh/opt.c", "    exit(1);\n}\n\n\nstatic void _show_version", "    exit(0);\n}\n\n\nstatic void _show_version"),
+        ("unknown-rcmd-exit-0", "src/pdsh/opt.c", "        if (rcmd_register_default_rcmd(opt->rcmd_name) < 0)\n            exit(1);",
+         "        if (rcmd_register_default_rcmd(opt->rcmd_name) < 0)\n            exit(0);"),
+        ("copy-access-failure-not-fatal", "src/pdsh/pcp_client.c", "            errx(\"%p: access: %s: %m\\n\", file);", "            err(\"%p: access: %s: %m\\n\", file);"),
+        ("marker-not-for-exec-default", "src/pdsh/dsh.c", "    if (pdsh_personality() == DSH && opt->getstat) {",
+         "    if (pdsh_personality() == DSH && opt->getstat && !(opt->rcmd_name && !strcmp (opt->rcmd_name, \"exec\"))) {"),
         # round 2b: the -k paths (which statement ends the run, who is signalled)
         ("k-no-midstream-check", "src/pdsh/dsh.c", "            if (a->kill_on_fail)\n                _die_if_signalled (a);", "            if (0)\n                _die_if_signalled (a);"),
         ("k-midstream-threshold", "src/pdsh/dsh.c", "    if ((sig = (th->rc - 128)) <= 0)", "    if ((sig = (th->rc - 128)) < 0)"),
